@@ -107,7 +107,7 @@ func (e *cacheEngine) Execute(t *testing.T, plan *Plan, res *Result) {
 	nextTag := 0
 	inflight := 0
 	known := false
-	readTags := map[int]bool{} // values produced by designated readers (SetReadValue)
+	readTags := map[int]bool{}   // values produced by designated readers (SetReadValue)
 	readTagAt := map[int]int64{} // event stamp at which the delivery of such a value completed
 	type rhCall struct{ call, ret int64 }
 	rhCalls := map[cacheKey][]*rhCall{} // GetWithReadHandle calls per block (ret 0 = under way)
